@@ -17,6 +17,7 @@ mod ops_dirs;
 mod ops_json;
 mod ops_iter;
 mod ops_res;
+mod ops_patsem;
 // MOD-MARKER (add `mod ops_<m>;` above this line)
 
 use std::cell::RefCell;
@@ -51,6 +52,7 @@ fn dispatch(st: &mut State, line: &str) -> String {
 		.or_else(|| ops_dirs::dispatch(st, fam, rest))
 		.or_else(|| ops_iter::dispatch(st, fam, rest))
 		.or_else(|| ops_res::dispatch(st, fam, rest))
+		.or_else(|| ops_patsem::dispatch(st, fam, rest))
 		// DISPATCH-MARKER (add `.or_else(|| ops_<m>::dispatch(st, fam, rest))` above this line)
 		.unwrap_or_else(|| "bad-op".to_string())
 }
